@@ -1066,8 +1066,23 @@ def depth_bounded(db, rule, rep):
     ids = {e['name']: e['val'] for e in db.enum(R + 'TokenID')['enumerators']}
     plain = ids.get('NOT', ids.get('LOGIC_NOT', 0))
 
-    def mk(children, i=0):
-        return Obj(__cls__=D + 'Node', token=Obj(__cls__=R + 'Token', id=plain, pos=Obj(start=i, finish=i + 1)), children=children)
+    def mk(children, i=0, indices=None):
+        return Obj(__cls__=D + 'Node', token=Obj(__cls__=R + 'Token', id=plain, pos=Obj(start=i, finish=i + 1), data=Obj(__kind__='tokendata', indices=indices)), children=children)
+
+    def gate_hook(it, fn, n, env):
+        cs_ = n.get('cs') or ''
+        if cs_.startswith(R + 'TokenData::') and 'obj' in n:
+            o = it.eval(fn, fn.stmts[n['obj']], env)
+            o = o[1] if isinstance(o, tuple) and len(o) == 2 and o[0] == 'ptr' else o
+            if isinstance(o, Obj) and o.get('__kind__') == 'tokendata':
+                last_ = cs_.split('::')[-1]
+                if last_ == 'IsTuple':
+                    return o['indices'] is not None
+                if last_ == 'ToTuple':
+                    return list(o['indices'] or [])
+                if last_ in ('HasValue', 'IsInt', 'IsText'):
+                    return False
+        return NOT_HANDLED
 
     def chain(depth):
         node, nodes = None, []
@@ -1078,7 +1093,7 @@ def depth_bounded(db, rule, rep):
 
     def run_gate(root):
         st = Obj(__cls__=D + 'ParserState', parsedTree=None, currentPosition=0, countCriticalErrors=0, reporter=None, nextTokenCall=None)
-        it_ = Interp(db, max_steps=20000000)
+        it_ = Interp(db, on_call=gate_hook, max_steps=20000000)
         it_.max_loop = 300000
         r = it_.call(gate, [st, root])
         return bool(r), st['countCriticalErrors']
@@ -1106,7 +1121,7 @@ def depth_bounded(db, rule, rep):
             node = None
             for i in range(depth):
                 node = mk([node] if node is not None else [], depth - i)
-                node = Obj(__cls__=D + 'Node', token=Obj(__cls__=R + 'Token', id=ids['PUNC_PL'], pos=Obj(start=0, finish=1)), children=[node])
+                node = Obj(__cls__=D + 'Node', token=Obj(__cls__=R + 'Token', id=ids['PUNC_PL'], pos=Obj(start=0, finish=1), data=Obj(__kind__='tokendata', indices=None)), children=[node])
             return node
         try:
             lo, hi = 64, 4096
@@ -1134,7 +1149,7 @@ def depth_bounded(db, rule, rep):
                 return NOT_HANDLED
             node = mk([])
             for _ in range(200):
-                node = Obj(__cls__=D + 'Node', token=Obj(__cls__=R + 'Token', id=ids['PUNC_PL'], pos=Obj(start=0, finish=1)), children=[node])
+                node = Obj(__cls__=D + 'Node', token=Obj(__cls__=R + 'Token', id=ids['PUNC_PL'], pos=Obj(start=0, finish=1), data=Obj(__kind__='tokendata', indices=None)), children=[node])
             try:
                 Interp(db, on_call=oc2, max_steps=2000000).call(cnr, [node])
             except OutOfFragment as e:
@@ -1172,19 +1187,53 @@ def depth_bounded(db, rule, rep):
         rule.ok('gate:width', 'children are counted by a type of %d value bits: no input of a size the library can hold overflows it' % bits, '%s:%d' % (cc.file, cc.line), nontrivial=False)
     else:
         try:
-            fits, _ = run_gate(mk([mk([]) for _ in range(2 ** bits - 1)]))
+            fits, _ = run_gate(mk([mk([]) for _ in range(2 ** bits - 2)]))
+            edge, crit_e = run_gate(mk([mk([]) for _ in range(2 ** bits - 1)]))
             over, crit_w = run_gate(mk([mk([]) for _ in range(2 ** bits)]))
+            idx_ok, _ = run_gate(mk([mk([])], indices=list(range(1, 40))))
+            idx_over, crit_i = run_gate(mk([mk([])], indices=[1] * (2 ** bits - 1)))
         except OutOfFragment as e:
             rule.broken('SemanticCheck outside the evaluable fragment: %s' % e)
             return
-        if not fits:
-            rule.violation('gate:width', '%s:%d' % (gate.file, gate.line), 'SemanticCheck refuses a node with %d children, which the node can count' % (2 ** bits - 1))
+        if not fits or not idx_ok:
+            rule.violation('gate:width', '%s:%d' % (gate.file, gate.line), 'SemanticCheck refuses a node with %d children (%s) or a token with 39 indices (%s), which the counter can hold with room for the one-based loops' % (2 ** bits - 2, fits, idx_ok))
+        elif edge or crit_e < 1 or idx_over or crit_i < 1:
+            rule.violation('gate:width', '%s:%d' % (gate.file, gate.line), 'components of a tuple are addressed from 1 by the same %d-bit type (%s), so the loops `for (index = 1; index < Arity() + 1; ++index)` of the type algebra and of the data '
+                           'comparison wrap at %d: SemanticCheck %s a node with %d children and %s a token with %d indices (both become tuple arities): debool(P)=debool(P) with P a product of %d factors is accepted and '
+                           'std::out_of_range escapes Interpreter::Evaluate' % (bits + 1, cc.rec.get('ret'), 2 ** bits - 1, 'accepts' if edge else 'refuses', 2 ** bits - 1, 'accepts' if idx_over else 'refuses', 2 ** bits - 1, 2 ** bits - 1))
         elif over or crit_w < 1:
             rule.violation('gate:width', '%s:%d' % (gate.file, gate.line), 'children of a node are counted and addressed by a %d-bit signed type (%s), and SemanticCheck %s a node with %d children: '
                            'X1×X1×…×X1 with %d factors parses, ChildrenCount() is %d, the visitors and generators see no child (the product prints as an empty text, a set literal as {})' % (
                                bits + 1, cc.rec.get('ret'), 'accepts' if over else 'silently refuses', 2 ** bits, 2 ** bits, -(2 ** bits)))
         else:
-            rule.ok('gate:width', 'a node with %d children passes, one with %d is refused with a critical error' % (2 ** bits - 1, 2 ** bits), '%s:%d' % (gate.file, gate.line))
+            rule.ok('gate:width', 'a node with %d children passes, one with %d or more (and a token with that many indices) is refused with a critical error' % (2 ** bits - 2, 2 ** bits - 1), '%s:%d' % (gate.file, gate.line))
+    # (2d) normalisation substitutes the bodies of term-functions into their calls, which multiplies the nesting of definitions that each pass
+    # the gate (200 levels x 200 nested calls = 40000): the recursive evaluator may run only behind a test of the normalised tree
+    ev = db.fn(R + 'Interpreter::Evaluate', required=False)
+    if ev is None or not ev.has_cfg():
+        rule.broken('anchor vanished: Interpreter::Evaluate')
+    else:
+        norm = [n for n in ev.calls() if (n.get('cs') or '').endswith('SyntaxTree::Normalize')]
+        runs = [n for n in ev.calls() if (n.get('cs') or '').endswith('ASTInterpreter::Evaluate')]
+        if not norm or not runs:
+            rule.broken('Interpreter::Evaluate no longer normalises and evaluates the tree itself')
+        else:
+            gated = True
+            for e_ in runs:
+                pos = ev.position_of(e_)
+                ok = False
+                for c, pol in (dominating_guards(ev, pos) if pos is not None else []):
+                    inside = list(ev.walk(c))
+                    if any(x is n_ for x in inside for n_ in norm):
+                        ok = True                      # the result of Normalize itself is tested
+                    if any(x['k'] in ('CXXMemberCallExpr', 'CallExpr') and x['id'] > norm[0]['id'] and any(y['k'] == 'MemberExpr' and y.get('member') == 'ast' for y in ev.walk(x)) for x in inside):
+                        ok = True                      # a test of the normalised tree made after the normalisation
+                gated = gated and ok
+            if gated:
+                rule.ok('normalised:gated', 'the evaluator runs only behind a test of the normalised tree', ev.loc(runs[0]))
+            else:
+                rule.violation('normalised:gated', ev.loc(runs[0]), 'the tree is evaluated right after Normalize with no test of what normalisation produced: with F2 := [a∈ℬ(X1)] (((a∪X1)∪X1)…) nested 200 deep and '
+                               'F3 := [a∈ℬ(X1)] F2[F2[…F2[a]…]] with 200 nested calls - each far below the parser bound - F3[X1] is accepted, normalises to a tree 40000 deep and the recursive evaluator overflows the stack')
     # (3) the raw tree is released iteratively
     dt = next((f for f in db.functions if f.name == D + 'Node::~Node' and f.body >= 0), None)
     node_rec = '%s:%d' % (gate.file, gate.line)
